@@ -193,9 +193,11 @@ def decorate(g, prog):
     return prog
 
 
-def skeleton_program(rng, flavour="slots"):
+def skeleton_program(rng, flavour="slots", shadow=False):
+    """``shadow``: include the skeleton whose looped fills shadow an enclosing loop variable (C01 only, see ProgGen.shadow_loops)"""
     g = pg.ProgGen(rng, flavour)
     g.error_mode = False
-    sk = rng.choice(SKELETONS)
+    g.shadow_loops = shadow
+    sk = rng.choice(SKELETONS if shadow else [k for k in SKELETONS if k is not sk_looped_fills_shadow_outer_loop])
     prog = decorate(g, sk(g))
     return prog, sk.__name__, g
